@@ -88,6 +88,8 @@ type SyncOpts struct {
 	// PuppetS / PuppetR replace the real call on that side by a reference peer
 	PuppetS func(conn *hstream.Conn) error
 	PuppetR func(conn *hstream.Conn) error
+	// CbDelay: a faulting callback blocks this long before returning its error
+	CbDelay time.Duration
 }
 
 type SyncResult struct {
@@ -221,6 +223,7 @@ func RunSync(caseNo int, srcDir, dstDir string, o SyncOpts) (*SyncResult, error)
 			cbMu.Unlock()
 			if o.HasherErrAt != 0 && n == o.HasherErrAt {
 				conn.Log(vt.Ev{"ev": "Fault", "ep": "R", "op": "hasher", "k": n})
+				time.Sleep(o.CbDelay)
 				return nil, fmt.Errorf("injected hasher error")
 			}
 			return newRecHash(st), nil
@@ -249,6 +252,7 @@ func RunSync(caseNo int, srcDir, dstDir string, o SyncOpts) (*SyncResult, error)
 			conn.Log(ev)
 			if o.NotifyErrAt != 0 && n == o.NotifyErrAt {
 				conn.Log(vt.Ev{"ev": "Fault", "ep": "R", "op": "notify", "k": n})
+				time.Sleep(o.CbDelay)
 				return fmt.Errorf("injected notify error")
 			}
 			return nil
